@@ -250,6 +250,21 @@ def run_case(case, ctx):
         if fn in ("matmul", "@"):
             t = randn(*batch, m, 2)
         other_lib, other_dense = DenseLinearOperator(t), t
+        if fn in ("matmul", "@", "add", "sub", "+", "-") and (fn in ("matmul", "@") or n == m) and rng.random() < 0.5:
+            # a STRUCTURED second operand (class-pair fast paths: Diag @ BlockDiag, Diag @ Diag, Kron @ Kron, Triangular @ Triangular ...)
+            c2 = rng.choice(["BlockDiag", "BlockInterleaved", "Diag", "ConstantDiag", "Identity", "Kron", "Toeplitz", "Triangular", "Root", "Sum", "Matmul", spec["cls"]])
+            pairs = {"Diag": ["BlockDiag", "BlockInterleaved", "Diag", "Triangular", "KronDiag", "Kron"], "ConstantDiag": ["BlockDiag", "Diag", "ConstantDiag", "Identity", "Triangular"],
+                     "KronDiag": ["BlockDiag", "Diag", "KronDiag", "Kron"], "Identity": ["BlockDiag", "Diag", "Identity", "Zero"], "BlockDiag": ["Diag", "BlockDiag", "ConstantDiag"],
+                     "BlockInterleaved": ["Diag", "BlockInterleaved"], "Kron": ["Kron", "KronDiag", "Diag"], "Triangular": ["Triangular", "Diag", "ConstantDiag"],
+                     "KronTri": ["KronTri", "Triangular"], "Zero": ["Diag", "Zero", "Identity"]}
+            if spec["cls"] in pairs and rng.random() < 0.7:
+                c2 = rng.choice(pairs[spec["cls"]])
+            sp2 = zoo.gen_spec(rng, rng.choice(["pd", "square"]), m, m, list(batch), depth=1, dtype=spec["dtype"], root=c2)
+            b2 = common.try_build(sp2, ctx) if sp2 is not None else None
+            if b2 is not None:
+                other_lib, other_dense = b2.op, b2.dense
+                kw["info"] = kw["info"] | {"operand_class:" + sp2["cls"]}
+                kw["tags"] = set(kw["tags"]) | common.spec_tags(sp2)
     else:
         t = randn(*dense.shape)
         if fn in ("matmul", "@"):
@@ -287,6 +302,10 @@ def run_case(case, ctx):
             lhs[..., 0, 0] += 1.0
             kwv, opv, basev, lhs = _isclose_variant(case, spec, op, base, lhs)
             judge("torch." + fn + "(tensor,op)" + (f"[{','.join(sorted(kwv))}]" if kwv else ""), lambda: f(lhs, opv, **kwv), lambda: f(lhs, basev, **kwv))
+            return
+        if fn in ("add", "sub") and (case["rseed"] >> 4) % 3 == 0:
+            # torch.add / torch.sub scale their SECOND argument by alpha - also when that argument is the operator
+            judge("torch." + fn + "(tensor,op)[alpha]", lambda: f(lhs, op, alpha=2.5), lambda: f(lhs, base, alpha=2.5))
             return
         judge("torch." + fn + "(tensor,op)", lambda: f(lhs, op), lambda: f(lhs, base))
         return
@@ -349,7 +368,10 @@ def run_case(case, ctx):
             from linear_operator.operators import DenseLinearOperator
 
             other_lib, other_dense = (DenseLinearOperator(pdm), pdm) if okind == "operator" else (pdm, pdm)
-        judge("torch." + fn, lambda: f(op, other_lib), lambda: f(dense, other_dense), lambda: meth(other_lib))
+        if fn in ("add", "sub") and (case["rseed"] >> 4) % 3 == 0 and torch.is_tensor(other_dense):
+            judge("torch." + fn + "[alpha]", lambda: f(op, other_lib, alpha=2.5), lambda: f(dense, other_dense, alpha=2.5), lambda: meth(other_lib, alpha=2.5))
+        else:
+            judge("torch." + fn, lambda: f(op, other_lib), lambda: f(dense, other_dense), lambda: meth(other_lib))
     elif fn == "matmul":
         if okind == "scalar":
             other_lib = other_dense = randn(m)
